@@ -17,11 +17,16 @@ EXTENDS HttpServer, Json, IOUtils
 
 Rec == ndJsonDeserialize(IOEnv.TRACE)
 
-VARIABLES l, S, hist, dead, lfd, kfd, nbad, nsteps
-vars == <<l, S, hist, dead, lfd, kfd, nbad, nsteps>>
+VARIABLES l, S, hist, dead, lfd, kfd, nbad, nsteps,
+          rx,        \* C07 (relational): per client, every byte it received in this history (capped)
+          supplied   \* C07 (relational): per client, the tags of its requests in the order the application answered them
+vars == <<l, S, hist, dead, lfd, kfd, nbad, nsteps, rx, supplied>>
+RxCap == 60000
+RxSame == UNCHANGED <<rx, supplied>>
 
 Init == /\ l = 1 /\ S = InitState(<<0>>, FALSE) /\ hist = 0 /\ dead = TRUE
         /\ lfd = 0 /\ kfd = 0 /\ nbad = 0 /\ nsteps = 0
+        /\ rx = [c \in Clients |-> <<>>] /\ supplied = [c \in Clients |-> <<>>]
 
 Ev(e) == l <= Len(Rec) /\ Rec[l].e = e /\ l' = l + 1
 
@@ -55,17 +60,54 @@ TReset == /\ Ev("reset")
           /\ S' = InitState(Rec[l].limit, Rec[l].kill)
           /\ hist' = Rec[l].hist /\ dead' = FALSE /\ lfd' = Rec[l].lfd /\ kfd' = Rec[l].kfd
           /\ nsteps' = 0 /\ UNCHANGED nbad
+          /\ rx' = [c \in Clients |-> <<>>] /\ supplied' = [c \in Clients |-> <<>>]
 
-TEndHist == Ev("endhist") /\ UNCHANGED <<S, hist, dead, lfd, kfd, nbad, nsteps>>
+(***************************************************************************)
+(* C07 judged on the implementation's own logs, independently of the model *)
+(* state (also after a divergence): every application response a client    *)
+(* received carries that client's own tag, at most once, in the order the   *)
+(* application supplied the answers for that client.  Application responses *)
+(* are recognised by their body "/c<client>/<n>" followed by '.' padding.   *)
+(***************************************************************************)
+RECURSIVE ReadAllFrom(_, _, _)
+ReadAllFrom(s, i, acc) ==
+    IF i > Len(s) THEN [ok |-> TRUE, rs |-> acc]
+    ELSE LET r == ReadOne(s, i) IN
+         IF ~r.ok THEN [ok |-> (Len(s) - i < 400000), rs |-> acc]       \* an incomplete tail is not an error
+         ELSE ReadAllFrom(s, r.next, Append(acc, r))
+TagOf(body) == LET dots == {i \in 1..Len(body) : body[i] = 46}
+               IN IF dots = {} THEN body ELSE Slice(body, 1, MinOf(dots) - 1)
+IsAppBody(b) == Len(b) >= 4 /\ b[1] = 47 /\ b[2] = 99              \* "/c"
+OwnerDigits(tag) == LET sl == {i \in 3..Len(tag) : tag[i] = 47} IN IF sl = {} THEN <<>> ELSE Slice(tag, 3, MinOf(sl) - 1)
+\* s is a subsequence of t without repetition (t has no repetition: tags are unique)
+RECURSIVE IsSubseq(_, _)
+IsSubseq(s, t) == IF s = <<>> THEN TRUE ELSE IF t = <<>> THEN FALSE
+                  ELSE IF Head(s) = Head(t) THEN IsSubseq(Tail(s), Tail(t)) ELSE IsSubseq(s, Tail(t))
+OwnBad(c) ==
+    IF Len(rx[c]) >= RxCap THEN ""
+    ELSE LET ra == ReadAllFrom(rx[c], 1, <<>>)
+             app == SelectSeq(ra.rs, LAMBDA r : IsAppBody(r.body))
+             tags == [i \in 1..Len(app) |-> TagOf(app[i].body)]
+         IN IF \E i \in 1..Len(tags) : OwnerDigits(tags[i]) # DigitsAscii(NatDigits(c)) THEN "own:foreign-response"
+            ELSE IF ~IsSubseq(tags, supplied[c]) THEN "own:duplicated-or-reordered"
+            ELSE ""
+TEndHist == /\ Ev("endhist") /\ UNCHANGED <<S, hist, lfd, kfd, nsteps, rx, supplied, dead>>
+            /\ LET badc == {c \in Clients : OwnBad(c) # ""} IN
+               IF badc = {} THEN UNCHANGED nbad
+               ELSE /\ nbad' = nbad + 1
+                    /\ LET c == CHOOSE x \in badc : TRUE IN
+                       PrintT("MISMATCH " \o ToJson([l |-> l, hist |-> hist, step |-> nsteps, kind |-> OwnBad(c),
+                                                     detail |-> [c |-> c, supplied |-> supplied[c]]]))
 
-TConnect == /\ Ev("connect") /\ Common
+TConnect == /\ Ev("connect") /\ Common /\ RxSame
             /\ LET ev == Rec[l] IN
                Step(ev, IF ev.res # "ok" THEN "harness:connect-failed" ELSE "", CConnect(S, ev.c))
 
-TSend == /\ Ev("send") /\ Common
+TSend == /\ Ev("send") /\ Common /\ RxSame
          /\ LET ev == Rec[l] IN Step(ev, "", CSend(S, ev.c, ev.bytes))
 
 TRecv == /\ Ev("recv") /\ Common
+         /\ rx' = [rx EXCEPT ![Rec[l].c] = IF Len(@) >= RxCap THEN @ ELSE @ \o Rec[l].bytes] /\ UNCHANGED supplied
          /\ LET ev == Rec[l]
                 c == ev.c
                 have == S.s2c[c]
@@ -83,14 +125,15 @@ TRecv == /\ Ev("recv") /\ Common
                THEN Bad(pre, [c |-> c, got |-> ev.bytes, state |-> ev.state, have |-> have]) /\ UNCHANGED S
                ELSE Step(ev, "", CRecv(S, c, Len(ev.bytes)))
 
-TClose == /\ Ev("close") /\ Common /\ Step(Rec[l], "", CClose(S, Rec[l].c))
-TShutWr == /\ Ev("shutwr") /\ Common /\ Step(Rec[l], "", CShutWr(S, Rec[l].c))
-TShutRd == /\ Ev("shutrd") /\ Common /\ Step(Rec[l], "", CShutRd(S, Rec[l].c))
-TKill == /\ Ev("kill") /\ Common /\ Step(Rec[l], "", Kill(S))
-TSetLimit == /\ Ev("setlimit") /\ Common /\ Step(Rec[l], "", SetLimit(S, Rec[l].limit))
+TClose == /\ Ev("close") /\ Common /\ RxSame /\ Step(Rec[l], "", CClose(S, Rec[l].c))
+TShutWr == /\ Ev("shutwr") /\ Common /\ RxSame /\ Step(Rec[l], "", CShutWr(S, Rec[l].c))
+TShutRd == /\ Ev("shutrd") /\ Common /\ RxSame /\ Step(Rec[l], "", CShutRd(S, Rec[l].c))
+TKill == /\ Ev("kill") /\ Common /\ RxSame /\ Step(Rec[l], "", Kill(S))
+TSetLimit == /\ Ev("setlimit") /\ Common /\ RxSame /\ Step(Rec[l], "", SetLimit(S, Rec[l].limit))
 
 TRespond ==
     /\ Ev("respond") /\ Common
+    /\ supplied' = [supplied EXCEPT ![Rec[l].c] = Append(@, Rec[l].tag)] /\ UNCHANGED rx
     /\ LET ev == Rec[l]
            toks == {t \in S.outst : t.owner = ev.c /\ t.tag = ev.tag}
        IN IF toks = {} THEN Step(ev, "token:unknown", S)
@@ -107,6 +150,9 @@ RespondAll(SS, items) ==
             ELSE RespondAll(Respond(SS, CHOOSE x \in toks : TRUE, it.ser), Tail(items))
 TRespondMany ==
     /\ Ev("respond_many") /\ Common
+    /\ LET its == Rec[l].items IN
+       supplied' = [c \in Clients |-> supplied[c] \o [i \in 1..Len(SelectSeq(its, LAMBDA x : x.c = c)) |-> SelectSeq(its, LAMBDA x : x.c = c)[i].tag]]
+    /\ UNCHANGED rx
     /\ LET ev == Rec[l]
            r == RespondAll(S, ev.items)
        IN Step(ev, IF r.bad # "" THEN r.bad ELSE IF ev.res # "ok" THEN "apierr:respond" ELSE "", r.S)
@@ -122,10 +168,10 @@ FlushAllFull(SS, fs) ==
                        ELSE LET w == SrvWrite(X, f, NextWriteLen(X.srv[f].http)) IN
                             IF w.fail THEN X ELSE One(w.S)
          IN FlushAllFull(One(SS), fs \ {f})
-TFlush == /\ Ev("flush") /\ Common /\ Step(Rec[l], "", FlushAllFull(S, Open(S)))
+TFlush == /\ Ev("flush") /\ Common /\ RxSame /\ Step(Rec[l], "", FlushAllFull(S, Open(S)))
 
 TFdCount ==
-    /\ Ev("fdcount") /\ Common
+    /\ Ev("fdcount") /\ Common /\ RxSame
     /\ LET ev == Rec[l]
            want == 2 + (IF S.hasKill THEN 1 ELSE 0) + Cardinality(Open(S))
        IN Step(ev, IF ev.n # want THEN "fds:count" ELSE "", S)
@@ -174,7 +220,7 @@ RunBatch(SS, b, hk) ==
        ELSE RunBatch(SrvWrite(SS, f, k).S, Tail(b), Tail(hk))
 
 TPoll ==
-    /\ Ev("poll") /\ Common
+    /\ Ev("poll") /\ Common /\ RxSame
     /\ LET ev == Rec[l] IN
        IF dead THEN UNCHANGED <<S, dead, nbad>>
        ELSE IF ReadyBad(ev) # "" THEN Step(ev, "", S)
